@@ -510,6 +510,22 @@ def resCollision (res : Rat) (prog : List Node) : Bool :=
   g.any (fun p => g.any (fun q =>
     p.1 == q.1 && depKey res p.2 == depKey res q.2 && p.2.length == q.2.length && p.2 != q.2))
 
+mutual
+/-- every indexed hold has one factor per enclosing iteration -/
+def factorDepthOK : Nat → Node → Bool
+  | d, .hold _ factors _ => factors.all (fun f => match f with | none => true | some fs => fs.length == d)
+  | d, .rep body _ => factorDepthOKList d body
+  | d, .iter body _ => factorDepthOKList (d + 1) body
+def factorDepthOKList : Nat → List Node → Bool
+  | _, [] => true
+  | d, n :: ns => factorDepthOK d n && factorDepthOKList d ns
+end
+
+/-- KF-C17-indexreuse: an indexed hold whose factor tuple is not as long as its nesting depth — the
+builder keeps its ranges in a dict keyed by index name, so a nested iteration that re-uses the name of
+an enclosing one loses a range; `required_increment_from` asserts `len(iterations) == len(factors)` -/
+def inIndexReuse (prog : List Node) : Bool := !factorDepthOKList 0 prog
+
 /-! ### PF-22 class: the state sweep
 
 The translation state apart from the commands evolves independently of what is emitted:
@@ -658,6 +674,7 @@ def handle : List Sexp → Sexp
           .list [.atom "depth", ofBool (inDepthClash res prog)],
           .list [.atom "zerokey", ofBool (inZeroKey res prog)],
           .list [.atom "rescollision", ofBool (resCollision res prog)],
+          .list [.atom "indexreuse", ofBool (inIndexReuse prog)],
           .list [.atom "fragment", ofBool (inFragment res nch prog)]]]
       match translate res prog with
       | .error e => .list ([.atom "translate-error", .atom (errName e)] ++ cls)
